@@ -387,8 +387,8 @@ def search(ctx):
     ctx.enumerate(client_matrix(), "client API: numeric types x lengths 0..9 x access x forced segmentation")
     ctx.enumerate(decode_cases(decode_codes()), "documented + boundary abort codes x protocol step")
     ctx.hypothesis(c02.history(200, refusal_bias=True).map(lambda c: dict(c, kind="server")),
-                   4000 if thorough else 1000, salt=1)
-    ctx.hypothesis(client_api_case(), 3000 if thorough else 800, salt=2)
+                   10000 if thorough else 1000, salt=1)
+    ctx.hypothesis(client_api_case(), 8000 if thorough else 800, salt=2)
     codes = st.integers(0, (1 << 32) - 1)
     ctx.hypothesis(st.builds(
         lambda code, where, n, k, style: {"kind": "decode", "code": code, "where": where, "length": n,
@@ -396,4 +396,4 @@ def search(ctx):
                                           "force": n % 2 == 0},
         codes, st.sampled_from(["upload", "download", "block_upload", "block_download"]),
         st.integers(1, 40), st.integers(0, 5), st.sampled_from(["seg_size", "seg_nosize", "exp_size"])),
-        3000 if thorough else 800, salt=3)
+        8000 if thorough else 800, salt=3)
